@@ -450,9 +450,11 @@ def run(rep, tier):
         ctors = [e for _, _, e in fn.all_events() if e.get("k") == "ctor" and str(e.get("rec", "")).endswith("deque_node") and len(e.get("args") or []) == 5]
         if not alloc or not ctors:
             raise AnalysisBroken("deque::alloc_node: allocation / node construction not found")
-        ch = alloc[0]
+        # the chunk, under every local name it is known by ('node* storage = reserve_node()' with the allocation in a spliced-in helper)
+        chs = set(alloc) | {e.get("var") for _, _, e in fn.all_events() if e.get("k") == "decl" and e.get("init") is not None and "*" in str(e.get("type", ""))
+                            and _dfr(fn, e["init"], lambda t: "allocate(" in t)}
         n8 += 1
-        from_old = lambda t, side: ("%s->%s" % (ch, side)) in t          # the old content of that link (read before the node is constructed over it)
+        from_old = lambda t, side: any(("%s->%s" % (c, side)) in t for c in chs)          # the old content of that link (read before the node is constructed over it)
         okl = _dfr(fn, ctors[0]["args"][3], lambda t: from_old(t, "left")) or from_old(T(ctors[0]["args"][3]), "left")
         okr = _dfr(fn, ctors[0]["args"][4], lambda t: from_old(t, "right")) or from_old(T(ctors[0]["args"][4]), "right")
         if okl and okr:
